@@ -136,7 +136,7 @@ def meanFieldDwave (a : HubbardArgs) : Op :=
 /-- `general_hubbard.number_operator(i, coefficient, particle_hole_symmetry)` -/
 def gNumberOp (i : Nat) (c : GQ) (phs : Bool) : Op :=
   let op := mk .fermion [(i, 1), (i, 0)] c
-  if phs then isub tol op (mk .fermion [] half) else op
+  if phs then isub tol op (mk .fermion [] (half * c)) else op
 
 /-- `interaction_operator(i, j, coefficient, particle_hole_symmetry)` -/
 def gInteractionOp (i j : Nat) (c : GQ) (phs : Bool) : Op :=
@@ -187,7 +187,9 @@ def FHM.interactionTerms (m : FHM) : Op :=
   m.interaction.foldl (fun terms p =>
     (m.lattice.sitePairs p.edgeType (p.a != p.aa)).foldl (fun terms (r, rr) =>
       let same := p.a == p.aa && r == rr
-      (m.lattice.spinPairs (if same then 2 else p.spinPairs) (!same)).foldl (fun terms (s, ss) =>
+      -- `parse_interaction_parameters`: spin_pairs is `SpinPairs.ALL` on spinless lattices
+      let sp := if m.lattice.spinless then 0 else p.spinPairs
+      (m.lattice.spinPairs (if same then 2 else sp) (!same)).foldl (fun terms (s, ss) =>
         let i := m.lattice.toSpinOrbitalIndex r p.a s
         let j := m.lattice.toSpinOrbitalIndex rr p.aa ss
         iadd tol terms (gInteractionOp tol i j p.coefficient m.phs)) terms) terms) []
